@@ -1,4 +1,7 @@
 pub mod c01;
+pub mod c03;
+pub mod c04;
+pub mod c13;
 pub mod replay;
 
 use crate::report::Tier;
@@ -6,6 +9,9 @@ use crate::report::Tier;
 pub fn dispatch(prop: &str, tier: Tier) -> i32 {
     match prop {
         "C01" => c01::run(tier),
+        "C03" => c03::run(tier),
+        "C04" => c04::run(tier),
+        "C13" => c13::run(tier),
         _ => {
             println!("MACHINERY-ERROR: unknown property {}", prop);
             2
